@@ -33,7 +33,6 @@ FIRST_MISSED = {
     "C02-1": "signal kind `decimal` (values single precision cannot represent, with exact ties)",
     "C02-3": "operator `near_plateau` (neighbour 1 ulp / 1e-12 / 1e-9 away: no plateau)",
     "C03-3": "new sub-check `nan_chunked` (NaN clause combined with chunked feeding)",
-    "C04-3": "load-step / node label layouts in C05 `batch_vs_alone` (non-ascending load_step labels are outside the documented domain of the assessment API; the detector uses row order)",
     "C05-2": "reference over 2-4 passes (pass numbers beyond 2)",
     "C05-3": "edge-rich batches: integer loads with |max| = number of bins, every load and range on a class edge",
     "C07-1": "new sub-check `setter_history` (law object changed through its public setters between builds)",
@@ -76,13 +75,17 @@ def seeded_table():
         check = r.get("check", "not run")
         if sid in FIRST_MISSED:
             check += " (missed at first; strengthened: %s)" % FIRST_MISSED[sid]
+        if m.get("outside_properties"):
+            check += " - **outside the listed properties**: " + esc(m["outside_properties"])[:400]
         by = esc(r.get("by", ""))[:150]
         rows.append("| %s | %s | %s | %s | %s | %s | %s |" % (sid, m.get("property"), files, txt, tests, check, by))
         n += 1
         det += 1 if r.get("check") == "DETECTED" else 0
     rows.append("")
-    rows.append("%d seeded changes kept, %d detected by the quick tier of the registered checks at seed 1 (%d of them only after the check was strengthened)." % (
-        n, det, sum(1 for k in FIRST_MISSED if res.get(k, {}).get("check") == "DETECTED")))
+    rows.append("%d seeded changes kept, %d detected by the quick tier of the registered checks at seed 1 (%d of them only after the check was strengthened); "
+                "%d are recorded as outside the listed properties." % (
+        n, det, sum(1 for k in FIRST_MISSED if res.get(k, {}).get("check") == "DETECTED"),
+        sum(1 for d in glob.glob(V + "/seeded/*/meta.json") if json.load(open(d)).get("outside_properties"))))
     return "\n".join(rows)
 
 
